@@ -50,10 +50,23 @@ def place_key(p):
     return (p["l"], tuple(proj_key(e) for e in p["p"]))
 
 
-def fmt_place(fn, pk):
+def fmt_place(fn, pk, stable=False):
+    """stable=True: never print a local's number (keys must survive edits that renumber temporaries)"""
     l, proj = pk
     n = fn.local_name(l)
-    s = n if n else "_%d" % l
+    if n:
+        s = n
+    elif stable:
+        if 1 <= l <= fn.nargs:
+            s = "arg%d" % l
+        else:
+            d = du_of(fn).unique_def(l)
+            if d is not None and d[0] == "call":
+                s = "<" + (callee_name(d[3]) or "call") + ">"
+            else:
+                s = "tmp:" + fn.local_ty(l)[:60]
+    else:
+        s = "_%d" % l
     for e in proj:
         if e == "*":
             s = "(*%s)" % s
@@ -62,7 +75,7 @@ def fmt_place(fn, pk):
         elif e[0] == "d":
             s += " as " + str(e[1])
         elif e[0] == "i":
-            s += "[_%d]" % e[1]
+            s += "[_]" if stable else "[_%d]" % e[1]
         elif e[0] == "ci":
             s += "[%d]" % e[1]
         else:
@@ -106,7 +119,7 @@ class DU:
 
     def unique_def(self, l):
         d = self.defs.get(l)
-        if d is not None and len(d) == 1 and l > self.fn.nargs:
+        if d is not None and len(d) == 1 and (l > self.fn.nargs or l == 0):
             return d[0]
         return None
 
@@ -169,6 +182,12 @@ class DU:
             if "fn" in o:
                 return ("fn", o["fn"])
             if "promoted" in o:
+                from . import facts as _facts
+                pc = None
+                if _facts.CURRENT is not None:
+                    pc = _facts.CURRENT.promoted_const.get("%s::{promoted#%d}" % (o["promoted_of"], o["promoted"]))
+                if pc is not None:
+                    return ("const", pc.get("v"), pc.get("item"), pc.get("ty"))
                 return ("promoted", o["promoted_of"], o["promoted"])
             return ("const", o.get("v"), o.get("item"), o.get("ty"))
         if k in ("copy", "move"):
@@ -204,6 +223,9 @@ class DU:
         # field of a constant struct
         if d is not None and d[0] == "assign" and d[3]["k"] == "use" and d[3]["ops"][0].get("k") == "const":
             v = d[3]["ops"][0]
+            if "promoted" in v:
+                pv = self.val_operand(v)
+                v = {"v": pv[1], "item": pv[2]} if pv[0] == "const" else {"v": None, "item": None}
             cur = v.get("v")
             path = []
             ok = True
